@@ -139,6 +139,7 @@ fn main() {
             let res = exec::run_exec(&ex, std::slice::from_ref(&fs));
             let r = &res.results[0][0];
             println!("{}", r.text);
+            println!("allocs={} alloc_bytes={}", r.allocs, r.alloc_bytes);
             for p in &r.probes {
                 println!("probe {} len={} sig={:016x}", p.0, p.1, p.2);
             }
